@@ -652,6 +652,9 @@ def check_C18(ctx):
         r = planner_mc(ctx, planner_consts(3, "{1,2}", "{1,3}", 1), PLANNER_INVS["C18"], label="q")
         planner_s2i(ctx, r["replay"], invs, variants=1)
         planner_i2s(ctx, invs, count=60, nmin=4, nmax=40, nres=6, extra=["--pill", 0.2, "--pbatch", 0.2, "--boundary"])
+        # thread-local systems on builders handed to add_batch are well-formed registrations too (what known finding KF1
+        # is about - their accesses and their thread - is no matter of C18's invariants)
+        planner_i2s(ctx, invs, count=30, nmin=4, nmax=30, nres=6, extra=["--pill", 0.1, "--pbatch", 0.25, "--innertl", "--ptl", 0.2], seed_off=4)
         planner_i2s(ctx, invs, count=6, nmin=150, nmax=400, nres=10, extra=["--pill", 0.03], seed_off=1)
         # funnel: many conflicting systems with all running-time hints over very few resources
         planner_i2s(ctx, invs, count=30, nmin=20, nmax=80, nres=2, extra=["--pdep", 0.05, "--funnel", 300], seed_off=2)
@@ -659,6 +662,7 @@ def check_C18(ctx):
         r = planner_mc(ctx, planner_consts(3, "{1,2}", "{1,3,5}", 2, unnamed=True), PLANNER_INVS["C18"], label="t1")
         planner_s2i(ctx, r["replay"], invs, variants=1)
         planner_i2s(ctx, invs, count=600, nmin=4, nmax=60, nres=6, extra=["--pill", 0.2])
+        planner_i2s(ctx, invs, count=300, nmin=4, nmax=30, nres=6, extra=["--pill", 0.1, "--pbatch", 0.25, "--innertl", "--ptl", 0.2], seed_off=4)
         planner_i2s(ctx, invs, count=40, nmin=150, nmax=500, nres=10, extra=["--pill", 0.03], seed_off=1)
         planner_i2s(ctx, invs, count=300, nmin=20, nmax=120, nres=2, extra=["--pdep", 0.05, "--funnel", 5000], seed_off=2)
     with nodebug_pass(ctx):
